@@ -254,6 +254,9 @@ def one(case, rows, perms):
         HardwareView(model, soft)
         tr, _fa = devdb.parse_hw_model(model)
         res["true"] = [list(s) for s in tr]
+        # the attribute names of the hardware view = true | false sequences; the same set for every model string
+        # (a plain equality of two real outputs, reported as a flag; the set itself goes into tables["all"])
+        res["all_same"] = (set(tr) | set(_fa)) == all_attr_sequences()
     except BaseException as e:  # noqa
         res["true"] = None
         res["exc"] = exc_enum(e)
@@ -302,10 +305,26 @@ def staged_vendor(reg, by_name, order, model, soft):
         return {"exc": exc_enum(e)}
 
 
+_ALL = {}
+
+
+def all_attr_sequences():
+    """every sequence HardwareView answers an attribute access for (true or false): true | false of
+    parse_hw_model, taken once from a string no regex of the database is found in"""
+    if "all" not in _ALL:
+        tr, fa = devdb.parse_hw_model("")
+        _ALL["all"] = set(tr) | set(fa)
+    return _ALL["all"]
+
+
 def tables(rows):
     reg = registry_connector.get()
     out = {"db": [[seq, rid] for seq, rid, _ in rows],
            "vendors": [], "canonical": {}}
+    try:
+        out["all"] = sorted(list(s) for s in all_attr_sequences())
+    except BaseException:  # noqa
+        out["all"] = None
     for name, v in reg.vendors.items():
         try:
             items = list(v.match())
